@@ -191,8 +191,8 @@ Lemma ensure_la_ok : forall c, Inv c ->
 Proof.
   intros c [Hc [Ht He]]. unfold ensure_la. destruct (char c <? 0).
   - destruct (lexcall (inp c)) as [ch r]. destruct (yylex1_ok ch) as [t [Hy Hin]]. rewrite Hy. cbn [bind].
-    eexists. split; [reflexivity|]. cbn. repeat split; auto; lia.
-  - exists c. repeat split; auto; lia.
+    eexists. split; [reflexivity|]. unfold Inv. cbn. repeat split; auto; lia.
+  - exists c. unfold Inv. repeat split; auto; lia.
 Qed.
 
 Lemma recover_ok : forall s, chain s ->
@@ -244,8 +244,8 @@ Proof.
       * apply Z.ltb_lt in Hidx. lia.
       * apply andb_prop in Hidx as [Hi1 Hi2]. apply Z.leb_le in Hi1. apply Z.leb_le in Hi2.
         apply orb_prop in Xb as [Xb|Xb]; [apply Z.ltb_lt in Xb; lia|]. apply Z.gtb_lt in Xb. lia.
-    + cbn. repeat split; auto; lia.
-  - cbn. repeat split; auto; lia.
+    + unfold Inv; cbn. repeat split; auto; lia.
+  - unfold Inv; cbn. repeat split; auto; lia.
 Qed.
 
 Lemma on_error_ok : forall c, Inv c ->
@@ -265,13 +265,13 @@ Proof.
            end) with Cont c' => Inv c' | Crash _ => False | _ => True end).
   { intros c0 H1 H2. rewrite H1. pose proof (recover_ok _ Hc) as Hr.
     destruct (recover_stk T (stk c)) as [[s'|]|]; [|exact I|exact Hr].
-    cbn. repeat split; auto; try lia. rewrite H2. exact Ht. }
+    unfold Inv; cbn. repeat split; auto; try lia. rewrite H2. exact Ht. }
   destruct (errflag c =? 0) eqn:E0.
   - apply Hrec; reflexivity.
   - destruct ((errflag c =? 1) || (errflag c =? 2)) eqn:E12.
     + apply Hrec; reflexivity.
     + destruct (errflag c =? 3) eqn:E3.
-      * destruct (token c =? tEofCode T); [exact I|]. cbn. repeat split; auto; try lia.
+      * destruct (token c =? tEofCode T); [exact I|]. unfold Inv; cbn. repeat split; auto; try lia.
         apply in_all_tokens. left. reflexivity.
       * apply Z.eqb_neq in E0. apply Z.eqb_neq in E3. apply orb_false_elim in E12 as [E1 E2].
         apply Z.eqb_neq in E1. apply Z.eqb_neq in E2. lia.
@@ -320,7 +320,7 @@ Proof.
     pose proof HI1 as [Hc1 [Ht1 He1]].
     rewrite forallb_forall in Hshift. specialize (Hshift (token c1) Ht1).
     destruct (shift_of T s (token c1)) as [[a|]|]; [| |discriminate].
-    + cbn. repeat split.
+    + unfold Inv; cbn. repeat split.
       * rewrite Hstk, Hs. exact Hshift.
       * rewrite Hstk, Hs. rewrite Hs in Hc. exact Hc.
       * apply in_all_tokens. left. reflexivity.
@@ -331,7 +331,7 @@ Qed.
 
 Lemma init_inv : forall i, Inv (init i).
 Proof.
-  intro i. unfold Inv, init. cbn. repeat split; try lia. apply in_all_tokens. left. reflexivity.
+  intro i. unfold Inv, init. unfold Inv; cbn. repeat split; try lia. apply in_all_tokens. left. reflexivity.
 Qed.
 
 Lemma run_inv : forall fuel c, Inv c -> forall site, run T fuel c <> OPanic site.
